@@ -161,6 +161,7 @@ func runReport(prop string, t *simrt.Tape, keep bool) simrt.Outcome {
 	errTexts := []string{"", "", "500 Internal Server Error", "Get \"http://x\": EOF", "timeout", "404 Not Found"}
 	rs := make([]vegeta.Result, n)
 	byteless := t.Prob(1, 6)
+	manyErrs := t.Prob(1, 8)
 	for i := range rs {
 		l := lat[i]
 		if prop == "C12" && t.Prob(1, 2) {
@@ -198,6 +199,10 @@ func runReport(prop string, t *simrt.Tape, keep bool) simrt.Outcome {
 			// code and error text are independent fields of a result (a results file may come from anywhere): an
 			// error next to a 2xx code, no error next to a 5xx code
 			e = []string{"", errTexts[2+t.Choose(4)]}[t.Choose(2)]
+		}
+		if manyErrs && e != "" {
+			// dozens of distinct error texts in one set (every URL of a large target list failing in its own words)
+			e = "Get \"http://x/" + strconv.Itoa(t.Choose(40)) + "\": connection refused"
 		}
 		rs[i] = vegeta.Result{Attack: "a", Seq: uint64(i), Code: code, Timestamp: ts, Latency: time.Duration(l), BytesIn: uint64(t.Choose(100000)), BytesOut: uint64(t.Choose(5000)), Error: e}
 		if byteless && t.Prob(3, 4) {
